@@ -369,6 +369,9 @@ func runC08(c *Ctx) {
 	checkGenericErrorDiscipline(c, "pkg/core", "pkg/model")
 	checkBatchDistributesAllKeys(c, "listing.batch-distributes-all")
 	checkLabelVersionSplitGuarded(c, "listing.version-split-guarded")
+	if checkModelOptionSettersVerbatim(c, "names.option-setters-verbatim") < 3 {
+		c.fail("names.option-setters-verbatim", "pkg/model:setters", "-", "expected at least 3 string option setters in pkg/model")
+	}
 }
 
 func types_ExprString(e ast.Expr) string { return exprString(e) }
